@@ -462,6 +462,18 @@ def _workload(tier, rng, shard, nshards, work=None):
         REC.cls("C18:crossing-thousands-of-steps-away")
         guarded(wav.findNearestZeroCrossing, rng.randrange(0, 200) / rate, 0.002)
         guarded(wav.findNearestZeroCrossing, rng.randrange(0, 200) / rate)
+    # search windows of more than a thousand samples (a coarse step on a high-rate recording) over audio with a DC offset: exact
+    # zeros are rare, the only one may lie anywhere in the window
+    for wide in range(3 if tier == "quick" else 12):
+        width, rate, n = rng.choice((2, 4)), rng.choice((8000, 44100)), rng.randrange(3000, 6000)
+        samples = [rng.randrange(50, 2000) for _ in range(n)]
+        for _z in range(rng.randrange(1, 4)):
+            samples[rng.randrange(0, n)] = 0
+        wav = audio.Wav(W.encode(samples, width), [1, width, rate, n, "NONE", "not compressed"])
+        wav._vmon_wave = "long-dc-offset-sparse-zero"
+        REC.cls("C18:window-of-more-than-1024-samples")
+        for _q in range(6):
+            guarded(wav.findNearestZeroCrossing, rng.randrange(0, n + 1) / rate, rng.choice([1100, 1500, 2047, 2500]) / rate)
     nw = (900 if tier == "quick" else 30000) // nshards
     for k in range(nw):
         wav, samples, rate, n = mk_wav(rng, WAVEFORMS[k % len(WAVEFORMS)])
@@ -598,7 +610,17 @@ def _workload(tier, rng, shard, nshards, work=None):
                 REC.cls("C18:splice:replaces-the-end-of-a-same-labelled-entry")
                 guarded(praatio_scripts.audioSplice, target, seg, tg, "words", lab, start, stop, False)
                 target = wav.new()
-        guarded(praatio_scripts.audioSplice, target, seg, tg, "words", lab, start, stop, rng.random() < 0.5)
+        out = guarded(praatio_scripts.audioSplice, target, seg, tg, "words", lab, start, stop, rng.random() < 0.5)
+        if isinstance(out, tuple) and len(out) == 2 and k % 3 == 0:
+            # a second take: the spliced recording is spliced again, the replaced stretch reaching into what the first splice added
+            # (beyond the length the recording had to begin with)
+            wav2, tg2 = out
+            n2 = len(wav2.frames) // wav2.sampleWidth
+            if n2 > n + 2:
+                i0 = rng.randrange(max(0, n - 3), n2 - 1)
+                i1 = rng.randrange(i0 + 1, n2 + 1)
+                REC.cls("C18:splice:second-splice-into-the-lengthened-recording")
+                guarded(praatio_scripts.audioSplice, wav2, seg, tg2, "words", "SPLICE2", i0 / rate, i1 / rate, False)
 
 
 def replay(v, work):
